@@ -95,7 +95,11 @@ def ddmin_ops(prop, scn, viol, budget):
         progress = True
         while progress and used < budget:
             progress = False
-            for cand in simp(out):
+            try:
+                cands = list(simp(out))
+            except Exception:
+                cands = []
+            for cand in cands:
                 used += 1
                 try:
                     v = execute(prop, cand, Stats())
